@@ -1,4 +1,4 @@
-(* C20: the build-context state machine releases everything on every Exception path and a
+(* C20: the build-context state machine releases everything on every path (any outcome) and a
    finished or failed build leaves no residue in any definition. *)
 From Coq Require Import List Arith Bool Lia.
 Import ListNotations.
@@ -45,34 +45,33 @@ Qed.
 Definition good_obs (o : obs) : Prop :=
   match o with OOutside _ b => b = None | OBlocked _ => False | OBuilt _ _ => True | OReadDesc _ _ => True end.
 
-Lemma step_released : forall c e, cur c = None -> locked c = false -> no_base e = true ->
-  cur (fst (step true c e)) = None /\ locked (fst (step true c e)) = false /\ good_obs (snd (step true c e)).
+Lemma step_released : forall c e, cur c = None -> locked c = false ->
+  cur (fst (step true true c e)) = None /\ locked (fst (step true true c e)) = false /\ good_obs (snd (step true true c e)).
 Proof.
-  intros c e Hc Hl Hb; destruct e as [id toks o | id toks o | tok]; simpl.
-  - rewrite Hl; simpl. destruct o; simpl in *; try discriminate; auto.
+  intros c e Hc Hl; destruct e as [id toks o | id toks o | tok]; simpl.
+  - rewrite Hl; simpl. auto.
   - rewrite Hl; simpl. auto.
   - unfold add_to_synth; rewrite Hc; simpl; auto.
 Qed.
 
-Lemma run_released : forall evs c, cur c = None -> locked c = false -> forallb no_base evs = true ->
-  cur (fst (run true c evs)) = None /\ locked (fst (run true c evs)) = false /\ Forall good_obs (snd (run true c evs)).
+Lemma run_released : forall evs c, cur c = None -> locked c = false ->
+  cur (fst (run true true c evs)) = None /\ locked (fst (run true true c evs)) = false /\ Forall good_obs (snd (run true true c evs)).
 Proof.
-  induction evs as [|e t IH]; intros c Hc Hl Hb; simpl.
+  induction evs as [|e t IH]; intros c Hc Hl; simpl.
   - auto.
-  - simpl in Hb; apply andb_true_iff in Hb; destruct Hb as [Hb1 Hb2].
-    destruct (step_released c e Hc Hl Hb1) as (H1 & H2 & H3).
-    destruct (step true c e) as [c1 o] eqn:Es; simpl in *.
-    destruct (IH c1 H1 H2 Hb2) as (H4 & H5 & H6).
-    destruct (run true c1 t) as [c2 os]; simpl in *; auto.
+  - destruct (step_released c e Hc Hl) as (H1 & H2 & H3).
+    destruct (step true true c e) as [c1 o] eqn:Es; simpl in *.
+    destruct (IH c1 H1 H2) as (H4 & H5 & H6).
+    destruct (run true true c1 t) as [c2 os]; simpl in *; auto.
 Qed.
 
 (* effect of one event on the definitions, from a released context *)
 Lemma step_defs : forall c e, cur c = None -> locked c = false ->
   match ev_toks e with
   | Some (id, toks) =>
-      content id (defs (fst (step true c e))) = content id (defs c) ++ toks /\
-      (forall d, d <> id -> content d (defs (fst (step true c e))) = content d (defs c))
-  | None => forall d, content d (defs (fst (step true c e))) = content d (defs c)
+      content id (defs (fst (step true true c e))) = content id (defs c) ++ toks /\
+      (forall d, d <> id -> content d (defs (fst (step true true c e))) = content d (defs c))
+  | None => forall d, content d (defs (fst (step true true c e))) = content d (defs c)
   end.
 Proof.
   intros c e Hc Hl; destruct e as [id toks o | id toks o | tok]; simpl.
@@ -90,17 +89,16 @@ Proof. intros. unfold build_ids. simpl. rewrite app_nil_r. auto. Qed.
 Lemma ev_toks_none_ids : forall e, ev_toks e = None -> build_ids [e] = [].
 Proof. intros [i l o|i l o|k] H; simpl in *; try discriminate; auto. Qed.
 
-Lemma run_defs_untouched : forall evs c d, cur c = None -> locked c = false -> forallb no_base evs = true ->
-  ~ In d (build_ids evs) -> content d (defs (fst (run true c evs))) = content d (defs c).
+Lemma run_defs_untouched : forall evs c d, cur c = None -> locked c = false ->
+  ~ In d (build_ids evs) -> content d (defs (fst (run true true c evs))) = content d (defs c).
 Proof.
-  induction evs as [|e t IH]; intros c d Hc Hl Hb Hn; cbn [run]; auto.
-  simpl in Hb; apply andb_true_iff in Hb; destruct Hb as [Hb1 Hb2].
-  destruct (step_released c e Hc Hl Hb1) as (H1 & H2 & _).
+  induction evs as [|e t IH]; intros c d Hc Hl Hn; cbn [run]; auto.
+  destruct (step_released c e Hc Hl) as (H1 & H2 & _).
   pose proof (step_defs c e Hc Hl) as Hd.
   rewrite build_ids_cons in Hn.
-  destruct (step true c e) as [c1 o] eqn:Es; cbn [fst snd] in *.
-  specialize (IH c1 d H1 H2 Hb2).
-  destruct (run true c1 t) as [c2 os] eqn:Er; cbn [fst snd] in *.
+  destruct (step true true c e) as [c1 o] eqn:Es; cbn [fst snd] in *.
+  specialize (IH c1 d H1 H2).
+  destruct (run true true c1 t) as [c2 os] eqn:Er; cbn [fst snd] in *.
   rewrite IH.
   - destruct (ev_toks e) as [[id toks]|] eqn:Et.
     + destruct Hd as [_ Hd]; apply Hd. intro; subst. apply Hn. apply in_or_app. left.
@@ -112,26 +110,25 @@ Qed.
 Lemma NoDup_app_r : forall (l1 l2 : list nat), NoDup (l1 ++ l2) -> NoDup l2.
 Proof. induction l1 as [|x t IH]; simpl; auto. intros l2 H. inversion H; auto. Qed.
 
-Lemma run_no_residue : forall evs c, cur c = None -> locked c = false -> forallb no_base evs = true ->
+Lemma run_no_residue : forall evs c, cur c = None -> locked c = false ->
   NoDup (build_ids evs) ->
   forall e id toks, In e evs -> ev_toks e = Some (id, toks) ->
-  content id (defs (fst (run true c evs))) = content id (defs c) ++ toks.
+  content id (defs (fst (run true true c evs))) = content id (defs c) ++ toks.
 Proof.
-  induction evs as [|e t IH]; intros c Hc Hl Hb Hnd e0 id toks Hin Het; simpl in Hin; [contradiction|].
-  simpl in Hb; apply andb_true_iff in Hb; destruct Hb as [Hb1 Hb2].
-  destruct (step_released c e Hc Hl Hb1) as (H1 & H2 & _).
+  induction evs as [|e t IH]; intros c Hc Hl Hnd e0 id toks Hin Het; simpl in Hin; [contradiction|].
+  destruct (step_released c e Hc Hl) as (H1 & H2 & _).
   pose proof (step_defs c e Hc Hl) as Hd.
   rewrite build_ids_cons in Hnd.
-  cbn [run]. destruct (step true c e) as [c1 ob] eqn:Es; cbn [fst snd] in *.
+  cbn [run]. destruct (step true true c e) as [c1 ob] eqn:Es; cbn [fst snd] in *.
   destruct Hin as [Heq | Hin].
   - subst e0. rewrite Het in Hd. rewrite (ev_toks_ids e id toks Het) in Hnd. simpl in Hnd.
     inversion Hnd as [|x l Hnotin Hnd']; subst.
-    pose proof (run_defs_untouched t c1 id H1 H2 Hb2 Hnotin) as Hu.
-    destruct (run true c1 t) as [c2 os]; cbn [fst snd] in *.
+    pose proof (run_defs_untouched t c1 id H1 H2 Hnotin) as Hu.
+    destruct (run true true c1 t) as [c2 os]; cbn [fst snd] in *.
     rewrite Hu. apply Hd.
   - assert (Hnd' : NoDup (build_ids t)) by (eapply NoDup_app_r; eauto).
-    pose proof (IH c1 H1 H2 Hb2 Hnd' e0 id toks Hin Het) as Hr.
-    destruct (run true c1 t) as [c2 os]; cbn [fst snd] in *.
+    pose proof (IH c1 H1 H2 Hnd' e0 id toks Hin Het) as Hr.
+    destruct (run true true c1 t) as [c2 os]; cbn [fst snd] in *.
     rewrite Hr. f_equal.
     assert (Hid : In id (build_ids t)).
     { clear - Hin Het. induction t as [|e' t' IHt]; [contradiction|].
